@@ -38,5 +38,7 @@ MCObj3 == [ a    |-> V("A", <<"A">>, {"x", "y"}, "variant"),
             sab  |-> V("AB", <<"A", "B">>, {"x"}, "variant"),         \* dashed top-level UID equal to the UID of A's child B
             saba |-> V("ABA", <<"A", "B", "A">>, {"x"}, "variant"),   \* ... and to the UID of A's grandchild
             b    |-> V("B", <<"B">>, {"x"}, "variant"),
-            m    |-> V("C", <<"B", "C">>, {"x"}, "variant") ]
+            m    |-> V("C", <<"B", "C">>, {"x"}, "variant"),
+            ab2  |-> V("B", <<"A", "B">>, {"y"}, "addon"),           \* competes with ab for id B (also below a parent outside the forest)
+            pab  |-> V("AB", <<"AB">>, {"x"}, "variant") ]           \* plain top-level variant with the id of the dashed one (sab), another UID
 =============================================================================
